@@ -8,6 +8,6 @@ CONSTANTS
   Faults <- AllFaults
   MaxFaults = 1
   Stepped = TRUE
-  Dir = "fwd"
+  Dir = "rev"
 CHECK_DEADLOCK FALSE
 INVARIANTS PrintSched
